@@ -5,6 +5,7 @@ from Solverz.sym_algebra.symbols import iVar, IdxVar, Para
 from Solverz.equation.jac import Jac, JacBlock
 from Solverz.utilities.address import Address
 from Solverz.utilities.type_checker import is_zero, is_integer
+from Solverz.sym_algebra.functions import Ones
 
 SolVar = Union[iVar, IdxVar]
 
@@ -57,19 +58,22 @@ class Hvp:
             for var, jb in jbs_row.items():
                 DeriExpr = self.eqn_column[eqn_name].diff(jb.DiffVar)
                 if not is_zero(DeriExpr):
-                    self.jac1.add_block(
+                    jb1 = JacBlock(
                         eqn_name,
-                        var,
-                        JacBlock(
-                            eqn_name,
-                            jb.EqnAddr,
-                            jb.DiffVar,
-                            jb.DiffVarValue,
-                            jb.VarAddr,
-                            DeriExpr,
-                            jb.Value0,
-                        ),
+                        jb.EqnAddr,
+                        jb.DiffVar,
+                        jb.DiffVarValue,
+                        jb.VarAddr,
+                        DeriExpr,
+                        jb.Value0,
                     )
+                    if jb1.DeriType == 'vector':
+                        # the block type comes from the first derivative's value, the second derivative may be
+                        # scalar-valued: broadcast it over the block explicitly
+                        jb1.DeriExprBc = jb1.DeriExpr * Ones(jb1.EqnAddr.stop - jb1.EqnAddr.start)
+                        jb1.ParseSp()
+                        jb1.ParseDen()
+                    self.jac1.add_block(eqn_name, var, jb1)
 
         self.blocks_sorted = self.jac1.blocks_sorted
 
